@@ -8,6 +8,9 @@ CONSTANTS
   OldVersions = TRUE
   StartRecipes = {"queued", "xfer_some"}
   MutOps = {"abort"}
+  SetVals = {"some", "full"}
+  PeerFaults = FALSE
+  PeerToggles = FALSE
   MaxInit = 3
   MaxPresent = 3
   MaxOps = 5
